@@ -3,13 +3,16 @@
 // one cluster member is the harness itself — a faulty member with a real key that talks to the
 // /sig and /msg protocol handlers directly.
 //
+// Nothing here re-implements the signed hash. Who signed what is attributed behaviourally (a real
+// /sig handler answered a request carrying exactly that payload), and the faulty member's own
+// signatures come out of a real bcast.Component that holds its key.
+//
 // Files: c13_test.go (entry point, world construction, monitor, oracles), adversary_test.go (the
-// faulty member: its own protocol handlers and the playbook).
+// faulty member: its own protocol handlers, its signing oracle and the playbook).
 package c13
 
 import (
 	"context"
-	"crypto/sha256"
 	"encoding/binary"
 	"encoding/hex"
 	"fmt"
@@ -18,7 +21,6 @@ import (
 	"sort"
 	"strings"
 	"sync"
-	"sync/atomic"
 	"testing"
 	"time"
 
@@ -32,7 +34,6 @@ import (
 	"google.golang.org/protobuf/types/known/timestamppb"
 
 	"github.com/obolnetwork/charon/app/errors"
-	"github.com/obolnetwork/charon/app/k1util"
 	"github.com/obolnetwork/charon/app/log"
 	"github.com/obolnetwork/charon/dkg/bcast"
 	pb "github.com/obolnetwork/charon/dkg/dkgpb/v1"
@@ -56,12 +57,15 @@ const (
 const (
 	idPartial = "partial/only-some-members"
 	idUnknown = "never/registered"
-	idProbe   = "probe/hash-shape" // registered everywhere, used once by the faulty member
 )
 
 var commonIDs = []string{
-	"frost/round1", "frost/round2", "frost/round1/shares", "nodesig/0", "nodesig/1", "lockhash", "depositdata/1", "depositdata/32",
+	"frost/round1", "frost/round1/shares", "frost/round2", "nodesig/0", "nodesig/1", "nodesig/10", "lockhash",
+	"depositdata/1", "depositdata/10", "depositdata/32", "validators", "exchanger/sigs",
 }
+
+// prefixPairs are registered ids of the same kind where the first is a prefix of the second.
+var prefixPairs = [][2]string{{"frost/round1", "frost/round1/shares"}, {"nodesig/1", "nodesig/10"}, {"depositdata/1", "depositdata/10"}}
 
 // kindOfID: the nodesig ids carry a Duration, all others a Timestamp (checkMessage enforces it).
 func kindOfID(id string) string {
@@ -78,11 +82,13 @@ func TestCheck(t *testing.T) {
 	r := kit.Start(t, "C13")
 	defer r.Finish()
 	r.Rule("case = cluster of n in 3..6 real bcast.Components (1 or 2 ceremony sessions over the same keys) on fakenet, one member is the harness-played faulty member; " +
-		"honest members run real Broadcast calls concurrently (about 40% of 8 ids each) while the faulty member executes a PRNG playbook of /sig and /msg injections " +
-		"(sequential and concurrent equivocation, concurrent duplicates, withholding, signature-list permutation/truncation/duplication/substitution from other ids, payloads, members and sessions, unknown ids, re-requests, relaying foreign signed messages, alternative encodings); " +
+		"honest members run real Broadcast calls concurrently (about 30% of 12 ids each) while the faulty member executes a PRNG playbook of /sig and /msg injections " +
+		"(sequential and concurrent equivocation, concurrent duplicates, withholding, signature-list permutation/truncation/duplication/substitution from other ids, payloads, members, requesters and sessions, " +
+		"unknown ids, re-requests, relaying foreign signed messages, alternative encodings, payload pairs that would collide under weakened hashes); " +
 		"non-trivial = at least one honest broadcast reached every honest member AND the faulty member had at least one /msg accepted and one rejected; distinct = hash of the full adversary trace")
-	r.Assume("app/k1util.Sign/Verify65 and decred secp256k1 are correct (the monitor verifies every observed signature with them)")
-	r.Assume("the monitor re-implements the session-bound hash of dkg/bcast/impl.go newHashAny (sha256 over length-prefixed session, id, type url, value); a variant that additionally binds the sender peer id is accepted as conforming if a probe shows the members sign that")
+	r.Assume("attribution is behavioural, no hash is re-implemented: member m signed payload P for (requester, id, session) iff m's real /sig handler answered a request carrying exactly P with a 65-byte signature; " +
+		"for an honest broadcaster the monitor takes its own local signing from the Broadcast(id,P) call and the other honest members' answers from the fact that its real client emitted the /msg (client.go sends it only after every peer answered the same request)")
+	r.Assume("the faulty member never computes a hash or a signature itself: its signatures come from a real bcast.Component holding its key (a private instance per session, re-created when its own dedup refuses), asked through the real /sig handler")
 	r.Assume("fakenet authenticates the stream peer like libp2p does: the faulty member can only open streams under its own peer id")
 	r.Assume("secp256k1 signatures are unforgeable: the faulty member only uses signatures it obtained through protocol responses, messages addressed to it, or its own key")
 	r.RacePkgs(false, "dkg/bcast")
@@ -106,6 +112,7 @@ func TestCheck(t *testing.T) {
 	r.Require("deliveries_checked", min(5000, 100000))
 	r.Require("adv_concurrent_sigreq_races", min(800, 16000))
 	r.Require("adv_concurrent_duplicate_races", min(150, 3000))
+	r.Require("adv_collision_attempts", min(500, 10000))
 
 	lc := &logCounter{counts: map[string]int64{}}
 	log.InitJSONForT(t, lc)
@@ -119,7 +126,7 @@ func TestCheck(t *testing.T) {
 		if err != nil {
 			t.Fatalf("peer id: %v", err)
 		}
-		pool = append(pool, member{key: k, pub: k.PubKey(), id: id})
+		pool = append(pool, member{key: k, id: id})
 	}
 
 	n := r.N(300, 6000)
@@ -136,102 +143,13 @@ func TestCheck(t *testing.T) {
 
 type member struct {
 	key *k1.PrivateKey
-	pub *k1.PublicKey
 	id  peer.ID
 }
 
-type hash32 [32]byte
+// anyKey is the exact wire form of a payload: the Any's type url and value bytes.
+type anyKey struct{ url, val string }
 
-func (h hash32) String() string { return hex.EncodeToString(h[:6]) }
-
-// hashShape describes which fields go into the signed hash and whether they are length-prefixed.
-// Field order: session, id, sender peer id (raw bytes), type url, value.
-type hashShape struct {
-	mask     uint8
-	prefixed bool
-}
-
-const (
-	fSession uint8 = 1 << iota
-	fID
-	fSender
-	fURL
-	fValue
-)
-
-var (
-	// plainSpec mirrors dkg/bcast newHashAny of the pinned tree: sha256 over the length-prefixed
-	// session hash, message id, type url and value.
-	plainSpec = hashShape{mask: fSession | fID | fURL | fValue, prefixed: true}
-	// senderSpec additionally binds the broadcasting member ([]byte(peer.ID) between id and type
-	// url). The pinned tree does not do this; it is accepted as conforming ("signed exactly that
-	// payload for that id in that session") so that the check keeps working if the relay gap is
-	// closed that way. Which one the members use is found by a probe signature request per case.
-	senderSpec = hashShape{mask: fSession | fID | fSender | fURL | fValue, prefixed: true}
-)
-
-func (s hashShape) pack() uint32 {
-	v := uint32(s.mask)
-	if s.prefixed {
-		v |= 1 << 8
-	}
-
-	return v
-}
-
-func unpackShape(v uint32) hashShape { return hashShape{mask: uint8(v), prefixed: v&(1<<8) != 0} }
-
-func (s hashShape) String() string {
-	var parts []string
-	for i, nm := range []string{"session", "id", "sender", "typeurl", "value"} {
-		if s.mask&(1<<uint(i)) != 0 {
-			parts = append(parts, nm)
-		}
-	}
-	if !s.prefixed {
-		parts = append(parts, "no-length-prefix")
-	}
-
-	return strings.Join(parts, "+")
-}
-
-func shapedHash(sh hashShape, session []byte, id string, sender peer.ID, a *anypb.Any) hash32 {
-	h := sha256.New()
-	for i, f := range [][]byte{session, []byte(id), []byte(sender), []byte(a.GetTypeUrl()), a.GetValue()} {
-		if sh.mask&(1<<uint(i)) == 0 {
-			continue
-		}
-		if sh.prefixed {
-			var l [8]byte
-			binary.BigEndian.PutUint64(l[:], uint64(len(f)))
-			_, _ = h.Write(l[:])
-		}
-		_, _ = h.Write(f)
-	}
-	var out hash32
-	copy(out[:], h.Sum(nil))
-
-	return out
-}
-
-// specHash is the hash a member has to have signed for (session, id, payload) broadcast by sender.
-func (m *monitor) specHash(w *world, id string, sender int, a *anypb.Any) hash32 {
-	var pid peer.ID
-	if sender >= 0 && sender < len(m.members) {
-		pid = m.members[sender].id
-	}
-
-	return shapedHash(unpackShape(m.spec.Load()), w.session, id, pid, a)
-}
-
-// payload is one application message together with every wire encoding the harness uses for it.
-type payload struct {
-	Tag  string
-	kind string // ts | dur | junk
-	msg  proto.Message
-	key  string
-	encs []*anypb.Any // 0 canonical (what anypb.New yields), 1 other type-url prefix, 2 fields in reverse order
-}
+func keyOfAny(a *anypb.Any) anyKey { return anyKey{a.GetTypeUrl(), string(a.GetValue())} }
 
 func msgKey(m proto.Message) string {
 	b, err := proto.MarshalOptions{Deterministic: true}.Marshal(m)
@@ -240,6 +158,45 @@ func msgKey(m proto.Message) string {
 	}
 
 	return string(m.ProtoReflect().Descriptor().FullName()) + ":" + hex.EncodeToString(b)
+}
+
+// decodedKey is the identity of the application message a callback would receive for a.
+func decodedKey(a *anypb.Any) string {
+	if a == nil {
+		return "nil"
+	}
+	inner, err := a.UnmarshalNew()
+	if err != nil {
+		return fmt.Sprintf("undecodable:%s:%x", a.GetTypeUrl(), a.GetValue())
+	}
+
+	return msgKey(inner)
+}
+
+// payload is one application message together with the wire encodings the harness uses for it.
+type payload struct {
+	Tag  string
+	kind string // ts | dur | junk | crafted
+	msg  proto.Message
+	key  string
+	encs []*anypb.Any // 0 canonical (what anypb.New yields), 1 other type-url prefix, 2 fields in reverse order
+}
+
+func typeName(kind string) string {
+	if kind == "dur" {
+		return "google.protobuf.Duration"
+	}
+
+	return "google.protobuf.Timestamp"
+}
+
+// secondsField / nanosField are the wire encodings of the two fields Timestamp and Duration share.
+func secondsField(secs int64) []byte {
+	return protowire.AppendVarint(protowire.AppendTag(nil, 1, protowire.VarintType), uint64(secs))
+}
+
+func nanosField(nanos int32) []byte {
+	return protowire.AppendVarint(protowire.AppendTag(nil, 2, protowire.VarintType), uint64(nanos))
 }
 
 func newPayload(tag, kind string, secs int64, nanos int32, rng *rand.Rand) *payload {
@@ -252,8 +209,8 @@ func newPayload(tag, kind string, secs int64, nanos int32, rng *rand.Rand) *payl
 	default:
 		junk := make([]byte, 8)
 		rng.Read(junk)
-		p.key = "junk:" + tag
 		p.encs = []*anypb.Any{{TypeUrl: "type.googleapis.com/verif.c13.Unknown", Value: junk}}
+		p.key = decodedKey(p.encs[0])
 
 		return p
 	}
@@ -262,13 +219,8 @@ func newPayload(tag, kind string, secs int64, nanos int32, rng *rand.Rand) *payl
 	if err != nil {
 		panic(err)
 	}
-	name := string(p.msg.ProtoReflect().Descriptor().FullName())
-	alt := &anypb.Any{TypeUrl: "verif.example/" + name, Value: append([]byte(nil), canon.GetValue()...)}
-	var rev []byte
-	rev = protowire.AppendTag(rev, 2, protowire.VarintType)
-	rev = protowire.AppendVarint(rev, uint64(nanos))
-	rev = protowire.AppendTag(rev, 1, protowire.VarintType)
-	rev = protowire.AppendVarint(rev, uint64(secs))
+	alt := &anypb.Any{TypeUrl: "verif.example/" + typeName(kind), Value: append([]byte(nil), canon.GetValue()...)}
+	rev := append(nanosField(nanos), secondsField(secs)...)
 	p.encs = []*anypb.Any{canon, alt, {TypeUrl: canon.GetTypeUrl(), Value: rev}}
 
 	return p
@@ -284,20 +236,16 @@ type world struct {
 	dups    sync.WaitGroup
 }
 
-type sigKey struct {
-	signer, requester int
-	h                 hash32
-}
-
 // spKey identifies "what did member signer sign for requester under id in this session".
 type spKey struct {
 	w, signer, requester int
 	id                   string
 }
 
-type signedKey struct {
-	signer int
-	h      hash32
+// answer is one payload a member answered a signature request for.
+type answer struct {
+	decoded string
+	tag     string
 }
 
 type delivery struct {
@@ -308,7 +256,7 @@ type delivery struct {
 	Payload  string `json:"payload"` // tag, or "?" for a payload the harness never created
 	Label    string `json:"via"`
 	key      string
-	exact    *hash32 // hash of the exact wire message (known for the faulty member's injections)
+	exact    *anyKey // the exact wire payload (known for the faulty member's injections)
 }
 
 type honestBcast struct {
@@ -322,24 +270,19 @@ type honestBcast struct {
 
 // monitor is the per-case observation state. Everything is guarded by mu.
 type monitor struct {
-	mu        sync.Mutex
-	n, adv    int
-	members   []member
-	idxOf     map[peer.ID]int
-	worlds    []*world
-	payloads  map[string]*payload
-	owner     map[string]*honestBcast // payload key -> honest broadcast that carries it
-	sigFor    map[sigKey]struct{}
-	signed    map[signedKey]struct{}
-	seenFull  map[hash32]struct{}
-	dels      []delivery
-	advDel    map[[2]int]int
-	curLabel  string
-	curHash   hash32
-	signedPay map[spKey]map[string]string // (session, signer, requester, id) -> payload key -> tag
-	spec      atomic.Uint32               // packed hashShape: plainSpec or senderSpec
-	counts    map[string]int64
-	verifies  int64
+	mu       sync.Mutex
+	n, adv   int
+	members  []member
+	idxOf    map[peer.ID]int
+	worlds   []*world
+	payloads map[string]*payload     // by decoded key
+	owner    map[string]*honestBcast // decoded key -> honest broadcast that carries it
+	answered map[spKey]map[anyKey]answer
+	dels     []delivery
+	advDel   map[[2]int]int
+	curLabel string
+	curAny   anyKey
+	counts   map[string]int64
 }
 
 func (m *monitor) count(k string, d int64) {
@@ -348,81 +291,38 @@ func (m *monitor) count(k string, d int64) {
 	m.mu.Unlock()
 }
 
-// recordSig notes that `signer` produced a signature over h while serving `requester`.
-func (m *monitor) recordSig(signer, requester int, h hash32) {
-	m.mu.Lock()
-	m.sigFor[sigKey{signer, requester, h}] = struct{}{}
-	m.signed[signedKey{signer, h}] = struct{}{}
-	m.mu.Unlock()
-}
-
-// recordSignedPayload notes which application payload `signer` signed for (requester, id); called
-// only for signatures that verified over the conforming hash.
-func (m *monitor) recordSignedPayload(w *world, signer, requester int, id string, a *anypb.Any, tag string) {
-	key := "undecodable:" + tag
-	if inner, err := a.UnmarshalNew(); err == nil {
-		key = msgKey(inner)
-	}
+// recordAnswer notes that `signer` answered a signature request of `requester` under id that carried
+// exactly payload a (or, for signer == requester, signed it locally as the broadcaster).
+func (m *monitor) recordAnswer(w *world, signer, requester int, id string, a *anypb.Any) {
+	ak, dk := keyOfAny(a), decodedKey(a)
 	m.mu.Lock()
 	k := spKey{w.idx, signer, requester, id}
-	if m.signedPay[k] == nil {
-		m.signedPay[k] = map[string]string{}
+	if m.answered[k] == nil {
+		m.answered[k] = map[anyKey]answer{}
 	}
-	m.signedPay[k][key] = tag
+	tag := "?"
+	if p := m.payloads[dk]; p != nil {
+		tag = p.Tag
+	}
+	m.answered[k][ak] = answer{decoded: dk, tag: tag}
+	m.counts["signature_answers_recorded"]++
 	m.mu.Unlock()
 }
 
-func (m *monitor) verify(signer int, h hash32, sig []byte) bool {
-	if len(sig) != 65 {
-		return false
-	}
-	ok, err := k1util.Verify65(m.members[signer].pub, h[:], sig)
-
-	return err == nil && ok
-}
-
-// observeFull is called for every /msg envelope an honest member puts on the wire (before it is
-// delivered): each signature that verifies for its slot proves that member signed the hash.
-func (m *monitor) observeFull(w *world, from int, msg *pb.BCastMessage) {
+// observeHonestMsg is called for every /msg envelope an honest member puts on the wire (before it
+// is delivered). The real client only gets here after every peer answered its request for exactly
+// this payload, so every honest member is recorded as having signed it for this broadcaster. The
+// faulty member is recorded by its own handler, and only when it really signed.
+func (m *monitor) observeHonestMsg(w *world, from int, msg *pb.BCastMessage) {
 	if msg.GetMessage() == nil {
 		return
 	}
-	h := m.specHash(w, msg.GetId(), from, msg.GetMessage())
-	fp := sha256.New()
-	_, _ = fp.Write(h[:])
-	_, _ = fmt.Fprintf(fp, "%d|", from)
-	for _, s := range msg.GetSignatures() {
-		_, _ = fp.Write(s)
-		_, _ = fp.Write([]byte{0xff})
-	}
-	var f hash32
-	copy(f[:], fp.Sum(nil))
-	m.mu.Lock()
-	_, seen := m.seenFull[f]
-	m.seenFull[f] = struct{}{}
-	m.mu.Unlock()
-	if seen {
-		return
-	}
-	bad := 0
-	for i, s := range msg.GetSignatures() {
-		if i >= m.n {
-			break
-		}
-		if m.verify(i, h, s) {
-			m.recordSig(i, from, h)
-			m.recordSignedPayload(w, i, from, msg.GetId(), msg.GetMessage(), "")
-		} else {
-			bad++
+	for i := 0; i < m.n; i++ {
+		if i != m.adv {
+			m.recordAnswer(w, i, from, msg.GetId(), msg.GetMessage())
 		}
 	}
-	m.mu.Lock()
-	m.verifies += int64(len(msg.GetSignatures()))
-	m.counts["honest_msg_envelopes_observed"]++
-	if bad > 0 || len(msg.GetSignatures()) != m.n {
-		m.counts["honest_msg_with_signature_not_over_session_hash"]++
-	}
-	m.mu.Unlock()
+	m.count("honest_msg_envelopes_observed", 1)
 }
 
 func (m *monitor) deliver(w *world, receiver int, pid peer.ID, id string, msg proto.Message) {
@@ -439,8 +339,8 @@ func (m *monitor) deliver(w *world, receiver int, pid peer.ID, id string, msg pr
 	}
 	if sender == m.adv {
 		d.Label = m.curLabel
-		h := m.curHash
-		d.exact = &h
+		ak := m.curAny
+		d.exact = &ak
 		m.advDel[[2]int{w.idx, receiver}]++
 	}
 	m.dels = append(m.dels, d)
@@ -478,10 +378,8 @@ func runCase(c *kit.Case, pool []member) {
 
 	mon := &monitor{
 		n: n, adv: cfg.Adv, idxOf: map[peer.ID]int{}, payloads: map[string]*payload{}, owner: map[string]*honestBcast{},
-		sigFor: map[sigKey]struct{}{}, signed: map[signedKey]struct{}{}, seenFull: map[hash32]struct{}{},
-		advDel: map[[2]int]int{}, counts: map[string]int64{}, signedPay: map[spKey]map[string]string{},
+		answered: map[spKey]map[anyKey]answer{}, advDel: map[[2]int]int{}, counts: map[string]int64{},
 	}
-	mon.spec.Store(plainSpec.pack())
 	for _, pi := range rng.Perm(len(pool))[:n] {
 		mon.idxOf[pool[pi].id] = len(mon.members)
 		mon.members = append(mon.members, pool[pi])
@@ -492,7 +390,7 @@ func runCase(c *kit.Case, pool []member) {
 	}
 	salt := rng.Uint64()
 
-	a := newAdversary(c, mon, salt)
+	a := newAdversary(c, mon, salt, peers)
 
 	// Worlds (ceremony sessions).
 	for wi := 0; wi < cfg.Worlds; wi++ {
@@ -523,7 +421,6 @@ func runCase(c *kit.Case, pool []member) {
 			for _, id := range commonIDs {
 				comp.RegisterMessageIDFuncs(id, cb, checkFunc(mon, kindOfID(id)))
 			}
-			comp.RegisterMessageIDFuncs(idProbe, cb, checkFunc(mon, "ts"))
 			if w.partial[i] {
 				comp.RegisterMessageIDFuncs(idPartial, cb, checkFunc(mon, "ts"))
 			}
@@ -541,7 +438,7 @@ func runCase(c *kit.Case, pool []member) {
 			if err := fakenet.Unframe(e.Data, msg); err != nil {
 				return
 			}
-			mon.observeFull(w, from, msg)
+			mon.observeHonestMsg(w, from, msg)
 		})
 		mode, lossy := cfg.Deliver, cfg.Lossy
 		w.net.SetPolicy(func(e *fakenet.Envelope) fakenet.Verdict {
@@ -572,32 +469,30 @@ func runCase(c *kit.Case, pool []member) {
 		})
 	}
 
-	// Honest broadcast plan: every honest member broadcasts about 40% of the common ids once.
+	// Honest broadcast plan: every honest member broadcasts about 30% of the common ids once.
 	var plan []*honestBcast
 	pcount := 0
+	addPlan := func(w *world, i int, id, kind string) {
+		pcount++
+		p := newPayload(fmt.Sprintf("H%d", pcount), kind, int64(1_000_000+pcount), int32(1+rng.Intn(1000)), rng)
+		mon.payloads[p.key] = p
+		hb := &honestBcast{World: w.idx, Sender: i, ID: id, Pay: p.Tag, p: p, Result: "not-run"}
+		mon.owner[p.key] = hb
+		plan = append(plan, hb)
+	}
 	for _, w := range mon.worlds {
 		for i := 0; i < n; i++ {
 			if i == cfg.Adv {
 				continue
 			}
 			for _, id := range commonIDs {
-				if rng.Intn(100) < 60 {
+				if rng.Intn(100) < 70 {
 					continue
 				}
-				pcount++
-				p := newPayload(fmt.Sprintf("H%d", pcount), kindOfID(id), int64(1_000_000+pcount), int32(1+rng.Intn(1000)), rng)
-				mon.payloads[p.key] = p
-				hb := &honestBcast{World: w.idx, Sender: i, ID: id, Pay: p.Tag, p: p, Result: "not-run"}
-				mon.owner[p.key] = hb
-				plan = append(plan, hb)
+				addPlan(w, i, id, kindOfID(id))
 			}
 			if w.partial[i] && rng.Intn(2) == 0 {
-				pcount++
-				p := newPayload(fmt.Sprintf("H%d", pcount), "ts", int64(1_000_000+pcount), int32(1+rng.Intn(1000)), rng)
-				mon.payloads[p.key] = p
-				hb := &honestBcast{World: w.idx, Sender: i, ID: idPartial, Pay: p.Tag, p: p, Result: "not-run"}
-				mon.owner[p.key] = hb
-				plan = append(plan, hb)
+				addPlan(w, i, idPartial, "ts")
 			}
 		}
 	}
@@ -615,6 +510,8 @@ func runCase(c *kit.Case, pool []member) {
 			go func() {
 				defer hwg.Done()
 				defer wave.Done()
+				// The broadcaster signs its own payload locally, first thing in Broadcast.
+				mon.recordAnswer(mon.worlds[hb.World], hb.Sender, hb.Sender, hb.ID, hb.p.encs[0])
 				err := mon.worlds[hb.World].comps[hb.Sender].Broadcast(ctx, hb.ID, hb.p.msg)
 				hmu.Lock()
 				if err == nil {
@@ -635,7 +532,6 @@ func runCase(c *kit.Case, pool []member) {
 	if r.Thorough() {
 		steps += rng.Intn(12)
 	}
-	a.probe()
 	cut1 := len(plan) / 2
 	cut2 := cut1 + (len(plan)-cut1)/2
 	wave0 := launch(plan[:cut1])
@@ -691,8 +587,8 @@ func checkFunc(mon *monitor, kind string) bcast.CheckMessage {
 }
 
 // ---------------------------------------------------------------------------------------------
-// oracles (evaluated on the quiescent case; the signed set only grows, so this is the most lenient
-// point in time for "never produced a signature")
+// oracles (evaluated on the quiescent case; the set of answered requests only grows, so this is the
+// most lenient point in time for "never signed")
 
 func evaluate(c *kit.Case, cfg caseCfg, mon *monitor, a *adversary, plan []*honestBcast) {
 	r := c.R
@@ -709,28 +605,39 @@ func evaluate(c *kit.Case, cfg caseCfg, mon *monitor, a *adversary, plan []*hone
 		return w
 	}
 
-	// missingFor returns, for the encoding of the payload with the fewest missing signers, who is missing.
-	missingFor := func(d delivery) (missing []int, h hash32, known bool) {
-		p := mon.payloads[d.key]
-		if p == nil {
-			return nil, h, false
+	// Index: (session, id) -> exact payload -> members that signed it (for whichever requester).
+	type wi struct {
+		w  int
+		id string
+	}
+	type signers struct {
+		decoded string
+		who     map[int]bool
+	}
+	index := map[wi]map[anyKey]*signers{}
+	for k, as := range mon.answered {
+		x := wi{k.w, k.id}
+		if index[x] == nil {
+			index[x] = map[anyKey]*signers{}
 		}
-		best := -1
-		for _, enc := range p.encs {
-			hh := mon.specHash(mon.worlds[d.World], d.ID, d.Sender, enc)
-			var miss []int
-			for i := 0; i < n; i++ {
-				if _, ok := mon.signed[signedKey{i, hh}]; !ok {
-					miss = append(miss, i)
-				}
+		for ak, an := range as {
+			s := index[x][ak]
+			if s == nil {
+				s = &signers{decoded: an.decoded, who: map[int]bool{}}
+				index[x][ak] = s
 			}
-			// fewest missing wins; on a tie prefer the encoding that was actually on the wire
-			if best < 0 || len(miss) < best || (len(miss) == best && best > 0 && d.exact != nil && hh == *d.exact) {
-				best, missing, h = len(miss), miss, hh
+			s.who[k.signer] = true
+		}
+	}
+	missingOf := func(s *signers) []int {
+		var miss []int
+		for i := 0; i < n; i++ {
+			if s == nil || !s.who[i] {
+				miss = append(miss, i)
 			}
 		}
 
-		return missing, h, true
+		return miss
 	}
 
 	// Oracle 1: every delivered payload was signed by every member for that id in that session.
@@ -741,16 +648,48 @@ func evaluate(c *kit.Case, cfg caseCfg, mon *monitor, a *adversary, plan []*hone
 		} else {
 			mon.counts["honest_deliveries"]++
 		}
-		missing, _, known := missingFor(d)
-		if !known {
-			c.Violation("bcast/delivered-without-every-members-signature/payload-never-put-on-the-wire",
-				fmt.Sprintf("member %d delivered (sender=%d,id=%s) a payload that no member ever sent or signed", d.Receiver, d.Sender, d.ID),
-				witness(map[string]any{"delivery": d}))
+		cands := index[wi{d.World, d.ID}]
+		if d.exact != nil {
+			if len(missingOf(cands[*d.exact])) == 0 {
+				continue
+			}
+		}
+		// Any wire form of the same application message that every member signed?
+		var best []int
+		found := false
+		var aks []anyKey
+		for ak := range cands {
+			aks = append(aks, ak)
+		}
+		sort.Slice(aks, func(i, j int) bool { return aks[i].url+"\x00"+aks[i].val < aks[j].url+"\x00"+aks[j].val })
+		for _, ak := range aks {
+			s := cands[ak]
+			if s.decoded != d.key {
+				continue
+			}
+			miss := missingOf(s)
+			if !found || len(miss) < len(best) {
+				best, found = miss, true
+			}
+		}
+		if found && len(best) == 0 {
+			if d.exact == nil {
+				continue
+			}
+			// Delivered from the faulty member in a wire form nobody signed, although every member
+			// signed another wire form of the same application message.
+			c.Violation("bcast/delivered-without-every-members-signature/re-encoded-payload-nobody-signed",
+				fmt.Sprintf("n=%d: member %d delivered (sender=%d,id=%s,payload=%s) via %s in a wire encoding that not every member signed; every member did sign another encoding of the same message",
+					n, d.Receiver, d.Sender, d.ID, d.Payload, d.Label),
+				witness(map[string]any{"delivery": d, "type_url_on_the_wire": d.exact.url}))
 
 			continue
 		}
-		if len(missing) == 0 {
-			continue
+		missing := best
+		if d.exact != nil {
+			missing = missingOf(cands[*d.exact])
+		} else if !found {
+			missing = missingOf(nil)
 		}
 		var cls []string
 		other := false
@@ -773,7 +712,7 @@ func evaluate(c *kit.Case, cfg caseCfg, mon *monitor, a *adversary, plan []*hone
 			class = "no-member-at-all"
 		}
 		c.Violation("bcast/delivered-without-every-members-signature/missing="+class,
-			fmt.Sprintf("n=%d: member %d delivered (sender=%d,id=%s,payload=%s) via %s although members %v never signed H(session,id,payload)",
+			fmt.Sprintf("n=%d: member %d delivered (sender=%d,id=%s,payload=%s) via %s although members %v never answered a signature request carrying that payload for that id in that session",
 				n, d.Receiver, d.Sender, d.ID, d.Payload, d.Label, missing),
 			witness(map[string]any{"delivery": d, "members_that_never_signed": missing}))
 	}
@@ -781,8 +720,15 @@ func evaluate(c *kit.Case, cfg caseCfg, mon *monitor, a *adversary, plan []*hone
 	// Oracle 1b: an honest member signs at most one payload per (session, requesting sender, id).
 	// Once it signed two, which members deliver which payload is only the sender's choice.
 	var spKeys []spKey
-	for k, pays := range mon.signedPay {
-		if k.signer != mon.adv && len(pays) > 1 {
+	for k, as := range mon.answered {
+		if k.signer == mon.adv {
+			continue
+		}
+		dec := map[string]bool{}
+		for _, an := range as {
+			dec[an.decoded] = true
+		}
+		if len(dec) > 1 {
 			spKeys = append(spKeys, k)
 		}
 	}
@@ -801,14 +747,13 @@ func evaluate(c *kit.Case, cfg caseCfg, mon *monitor, a *adversary, plan []*hone
 		return x.signer < y.signer
 	})
 	for _, k := range spKeys {
+		tagSet := map[string]bool{}
+		for _, an := range mon.answered[k] {
+			tagSet[an.tag] = true
+		}
 		var tags []string
-		for key, tag := range mon.signedPay[k] {
-			if tag == "" {
-				if p := mon.payloads[key]; p != nil {
-					tag = p.Tag
-				}
-			}
-			tags = append(tags, tag)
+		for t := range tagSet {
+			tags = append(tags, t)
 		}
 		sort.Strings(tags)
 		mon.counts["member_signed_two_payloads_for_one_sender_and_id"]++
@@ -845,7 +790,7 @@ func evaluate(c *kit.Case, cfg caseCfg, mon *monitor, a *adversary, plan []*hone
 			continue
 		}
 		// Classify: is a delivered payload "foreign" (an honest member's broadcast attributed to
-		// somebody else), and if so did its receiver itself sign that hash for the claimed sender?
+		// somebody else), and if so did its receiver itself sign that payload for the claimed sender?
 		foreign, foreignNotCosigned := 0, 0
 		var conflict []delivery
 		receivers := map[int]bool{}
@@ -857,12 +802,9 @@ func evaluate(c *kit.Case, cfg caseCfg, mon *monitor, a *adversary, plan []*hone
 			}
 			foreign++
 			cosigned := false
-			if p := mon.payloads[d.key]; p != nil {
-				for _, enc := range p.encs {
-					hh := mon.specHash(mon.worlds[d.World], d.ID, d.Sender, enc)
-					if _, ok := mon.sigFor[sigKey{d.Receiver, d.Sender, hh}]; ok {
-						cosigned = true
-					}
+			for _, an := range mon.answered[spKey{d.World, d.Receiver, d.Sender, d.ID}] {
+				if an.decoded == d.key {
+					cosigned = true
 				}
 			}
 			if !cosigned {
@@ -891,7 +833,6 @@ func evaluate(c *kit.Case, cfg caseCfg, mon *monitor, a *adversary, plan []*hone
 	}
 
 	// Vacuity guards and coverage.
-	honestPerWorld := n - 1
 	for _, hb := range plan {
 		mon.counts["honest_broadcasts"]++
 		if hb.Result != "ok" {
@@ -906,21 +847,32 @@ func evaluate(c *kit.Case, cfg caseCfg, mon *monitor, a *adversary, plan []*hone
 				got[d.Receiver] = true
 			}
 		}
-		if len(got) == honestPerWorld-1 {
+		if len(got) == n-2 { // every honest member but the broadcaster
 			mon.counts["honest_broadcasts_delivered_to_all_honest"]++
 		} else {
 			mon.counts["honest_broadcasts_delivered_partially"]++
 		}
 	}
-	misattributed := 0
 	for _, d := range mon.dels {
 		if hb := mon.owner[d.key]; hb != nil && hb.Sender != d.Sender {
-			misattributed++
+			mon.counts["deliveries_attributed_to_other_than_the_broadcaster"]++
+		}
+		// Evidence only (the statement does not bind the requester): some member signed the payload
+		// only on behalf of another requester than the sender the callback was told.
+		onlyOther := false
+		for i := 0; i < n && !onlyOther; i++ {
+			forSender := false
+			for _, an := range mon.answered[spKey{d.World, i, d.Sender, d.ID}] {
+				if an.decoded == d.key {
+					forSender = true
+				}
+			}
+			onlyOther = !forSender
+		}
+		if onlyOther {
+			mon.counts["deliveries_with_a_signature_made_for_another_requester"]++
 		}
 	}
-	mon.counts["deliveries_attributed_to_other_than_the_broadcaster"] += int64(misattributed)
-	mon.counts["monitor_signature_verifications"] += mon.verifies
-	mon.counts["signatures_recorded"] += int64(len(mon.sigFor))
 
 	accepted, rejected := a.accepted, a.rejected
 	if mon.counts["honest_broadcasts_delivered_to_all_honest"] > 0 && accepted > 0 && rejected > 0 {
@@ -932,7 +884,6 @@ func evaluate(c *kit.Case, cfg caseCfg, mon *monitor, a *adversary, plan []*hone
 	for k, v := range a.counts {
 		r.Count(k, v)
 	}
-	r.Seen("conforming_hash_shape_in_force", unpackShape(mon.spec.Load()).String())
 	r.Seen("cluster_sizes", fmt.Sprint(n))
 	r.Seen("faulty_member_position", fmt.Sprintf("%d/%d", cfg.Adv, n))
 	if c.Idx%97 == 3 {
